@@ -13,6 +13,7 @@ pub mod c06;
 pub mod c09;
 pub mod c10;
 pub mod c19;
+pub mod c26;
 pub mod cyc;
 pub mod value;
 
@@ -29,6 +30,8 @@ pub struct PropSpec {
     pub engine: &'static str,
     /// custom per-case runner (engines other than plain `seq`); `None` = run_seq with `make()`
     pub runner: Option<fn(&PropSpec, &Case) -> SeqOutcome>,
+    /// custom tape decoder; `None` = `gen_case(tape, profile)`
+    pub decode: Option<fn(&[u32]) -> Case>,
 }
 
 pub fn spec(id: &str) -> Option<PropSpec> {
@@ -47,6 +50,7 @@ pub fn spec(id: &str) -> Option<PropSpec> {
         "C13" => Some(cyc::spec_c13()),
         "C14" => Some(cyc::spec_c14()),
         "C15" => Some(cyc::spec_c15()),
+        "C26" => Some(c26::spec_c26()),
         _ => None,
     }
 }
@@ -56,6 +60,7 @@ pub fn spec_for(id: &str, engine: &str) -> Option<PropSpec> {
     match (id, engine) {
         ("C22", "fault") => Some(cyc::spec_c22_acyclic()),
         ("C22", "faultlat") => Some(cyc::spec_c22_lattice()),
+        ("C23", "mem") => Some(crate::memsafe::spec_c23_mem()),
         (_, "seq") => spec(id),
         _ => None,
     }
